@@ -38,6 +38,7 @@ type specEnv struct {
 	depth int
 	preferLocals bool
 	visMode string
+	inlineSpecs bool
 }
 
 func (e *specEnv) errf(format string, args ...any) {
@@ -102,6 +103,13 @@ func (e *specEnv) eval(x ast.Expr) specVal {
 		if e.pkg != nil {
 			if c, ok := e.pkg.Types.Scope().Lookup(x.Name).(*types.Const); ok {
 				return e.constVal(c)
+			}
+			if sp := tr.eng.spkgs[e.pkg.PkgPath]; sp != nil {
+				if g, ok := sp.Members[x.Name].(*ssa.Global); ok {
+					pt := g.Type().Underlying().(*types.Pointer).Elem()
+					c := tr.cellComp(pt)
+					return specVal{tr.read(tr.heapOf(e.st, c), tr.eng.globalAddr(g)), pt}
+				}
 			}
 		}
 		e.errf("unknown name %s", x.Name)
@@ -375,6 +383,31 @@ func (e *specEnv) call(x *ast.CallExpr) specVal {
 		n := *e
 		n.st = e.old
 		return n.eval(x.Args[0])
+	case "atentry":
+		// value of the expression when the enclosing loop was entered
+		if e.li == nil || e.li.preSt == nil || e.a == nil {
+			e.errf("atentry() outside a loop invariant")
+			break
+		}
+		saved := map[*ssa.Phi]Term{}
+		for phi, t := range e.li.phiEntry {
+			if old, ok := e.a.phiOverride[phi]; ok {
+				saved[phi] = old
+			}
+			e.a.phiOverride[phi] = t
+		}
+		n := *e
+		n.st = e.li.preSt
+		n.visMode = "init"
+		v := n.eval(x.Args[0])
+		for phi := range e.li.phiEntry {
+			if old, ok := saved[phi]; ok {
+				e.a.phiOverride[phi] = old
+			} else {
+				delete(e.a.phiOverride, phi)
+			}
+		}
+		return v
 	case "implies":
 		if need(2) {
 			return specVal{Implies(e.evalBool(x.Args[0]), e.evalBool(x.Args[1])), tBool}
@@ -460,7 +493,13 @@ func (e *specEnv) call(x *ast.CallExpr) specVal {
 	case "is":
 		if need(2) {
 			v := arg(0)
-			t := lookupTypeName(e.pkg, x.Args[1])
+			var t types.Type
+			if bl, ok := x.Args[1].(*ast.BasicLit); ok && bl.Kind == token.STRING {
+				src, _ := strconv.Unquote(bl.Value)
+				t = tr.eng.contracts.resolveType(e.pkg, src, "spec", 0)
+			} else {
+				t = lookupTypeName(e.pkg, x.Args[1])
+			}
 			if t == nil {
 				e.errf("unknown type %s", types.ExprString(x.Args[1]))
 				break
@@ -602,6 +641,28 @@ func (e *specEnv) call(x *ast.CallExpr) specVal {
 			return specVal{app("+", e.li.visCountHead, "1"), tInt}
 		}
 		return specVal{e.li.visCountHead, tInt}
+	case "errNew":
+		tr.eng.declareOnce(tr, "errNewMarker", "(define-fun errNewMarker () Val (VOther 999999 0))")
+		return specVal{"errNewMarker", types.Universe.Lookup("error").Type()}
+	case "world":
+		c := tr.comp("ghost:W", nil, "World", false)
+		return specVal{tr.read(tr.heapOf(e.st, c)), tWorld}
+	case "out":
+		if need(3) {
+			return specVal{app("mkOut", e.toVal(arg(0)), e.toVal(arg(1)), arg(2).t), tOutcome}
+		}
+	case "outV":
+		if need(1) {
+			return specVal{app("outV", arg(0).t), types.NewInterfaceType(nil, nil)}
+		}
+	case "outE":
+		if need(1) {
+			return specVal{app("outE", arg(0).t), types.NewInterfaceType(nil, nil)}
+		}
+	case "outW":
+		if need(1) {
+			return specVal{app("outW", arg(0).t), tWorld}
+		}
 	case "ghost":
 		if need(1) {
 			id, ok := x.Args[0].(*ast.Ident)
@@ -657,16 +718,53 @@ func (e *specEnv) applySpec(sf *SpecFunc, x *ast.CallExpr) specVal {
 			e.errf("spec expansion too deep at %s", sf.name)
 			return specVal{"0", sf.rtype}
 		}
-		n := &specEnv{a: nil, tr: tr, pkg: sf.pkg, st: e.st, old: e.old, vars: bind, errs: e.errs, depth: e.depth + 1}
-		v := n.eval(sf.body)
-		if v.typ == nil {
-			v = specVal{e.sorts().zero(sf.rtype), sf.rtype}
+		// compile the body once per heap state into an SMT define-fun (sharing instead of
+		// textual expansion); the body reads the heap of that state with the parameters symbolic
+		if e.inlineSpecs {
+			n := &specEnv{a: nil, tr: tr, pkg: sf.pkg, st: e.st, old: e.old, vars: bind, errs: e.errs, depth: e.depth + 1, inlineSpecs: true}
+			v := n.eval(sf.body)
+			if v.typ == nil {
+				v = specVal{e.sorts().zero(sf.rtype), sf.rtype}
+			}
+			if isInterface(sf.rtype) && !isInterface(v.typ) {
+				v = specVal{e.toVal(v), sf.rtype}
+			}
+			v.typ = sf.rtype
+			return v
 		}
-		if isInterface(sf.rtype) && !isInterface(v.typ) {
-			v = specVal{e.toVal(v), sf.rtype}
+		key := fmt.Sprintf("%s@%p/%p", sf.name, e.st, e.old)
+		fname, ok := tr.specDefs[key]
+		if !ok {
+			tr.fresh++
+			fname = fmt.Sprintf("sf_%s_%d", sf.name, tr.fresh)
+			tr.specDefs[key] = fname
+			pb := map[string]specVal{}
+			var decls []string
+			for i, p := range sf.params {
+				bv := fmt.Sprintf("p_%s_%s", fname, p)
+				pb[p] = specVal{bv, sf.ptypes[i]}
+				decls = append(decls, fmt.Sprintf("(%s %s)", bv, e.sorts().sortOf(sf.ptypes[i])))
+				tr.boundVars = append(tr.boundVars, bv)
+			}
+			n := &specEnv{a: nil, tr: tr, pkg: sf.pkg, st: e.st, old: e.old, vars: pb, errs: e.errs, depth: e.depth + 1}
+			v := n.eval(sf.body)
+			tr.boundVars = tr.boundVars[:len(tr.boundVars)-len(sf.params)]
+			bt := v.t
+			if v.typ == nil {
+				bt = e.sorts().zero(sf.rtype)
+			} else if isInterface(sf.rtype) && !isInterface(v.typ) {
+				bt = e.toVal(v)
+			}
+			tr.declare(fmt.Sprintf("(define-fun %s (%s) %s %s)", fname, strings.Join(decls, " "), e.sorts().sortOf(sf.rtype), bt))
 		}
-		v.typ = sf.rtype
-		return v
+		ts := make([]Term, len(args))
+		for i, a := range args {
+			ts[i] = a.t
+		}
+		if len(ts) == 0 {
+			return specVal{fname, sf.rtype}
+		}
+		return specVal{app(fname, ts...), sf.rtype}
 	}
 	// recursive: uninterpreted symbol
 	fname := "spec_" + sf.name
@@ -849,6 +947,10 @@ func (a *Act) evalSpecBool(st *State, x ast.Expr, li *loopInfo) Term {
 	return t
 }
 
+func (a *Act) evalSpecTerm(st *State, x ast.Expr, li *loopInfo) Term {
+	return a.evalSpecInt(st, x, li)
+}
+
 func (a *Act) evalSpecInt(st *State, x ast.Expr, li *loopInfo) Term {
 	var errs []string
 	pkg := a.tr.eng.pkgOf(a.fn)
@@ -904,6 +1006,9 @@ func (a *Act) assumeRequires(st *State) {
 	vars := a.bindContract(fc, st, a.args, nil, a.fn.Signature, true)
 	e := &specEnv{a: a, tr: a.tr, pkg: fc.pkg, st: st, old: st, vars: vars, errs: &errs}
 	for _, c := range fc.requires {
+		if !a.tr.wantClause(c) {
+			continue
+		}
 		a.tr.assume(Implies(st.reach, e.evalBool(c.expr)), "requires "+c.text)
 	}
 	for _, m := range errs {
@@ -919,6 +1024,17 @@ func (a *Act) atReturn(st *State, in *ssa.Return, results []Term) {
 	var errs []string
 	vars := a.bindContract(fc, st, a.args, results, a.fn.Signature, true)
 	e := &specEnv{a: a, tr: a.tr, pkg: fc.pkg, st: st, old: a.entryState, vars: vars, errs: &errs}
+	for ord, ts := range fc.tailrec {
+		if ts.result == nil {
+			continue
+		}
+		for _, li := range a.loops {
+			if li.ord == ord && li.headSt != nil && (li.blocks[in.Block()] || li.header.Dominates(in.Block())) {
+				outT := e.eval(ts.result.expr).t
+				a.tailrecOblige(st, li, outT, "return")
+			}
+		}
+	}
 	if fc.panics == "iff" && fc.panicsIff != nil {
 		o := a.obligePost(st, in.Pos(), &clause{text: "returns normally only if !(" + fc.panicsIff.text + ")"}, Not(a.tr.panicsIffTerm()))
 		_ = o
@@ -987,6 +1103,9 @@ func (a *Act) applyContract(st *State, callee *ssa.Function, fc *FuncContract, a
 	for _, c := range fc.requires {
 		if c.assumed() {
 			tr.usedAssumed[fc.name+" requires (not checked at call sites): "+c.text] = true
+			continue
+		}
+		if !tr.wantClause(c) {
 			continue
 		}
 		g := e.evalBool(c.expr)
@@ -1162,6 +1281,11 @@ func (a *Act) frameForCall(st *State, fc *FuncContract, vars map[string]specVal,
 			delete(st.heap, name)
 		}
 	}
+	if fc.changesWorld {
+		wc := tr.comp("ghost:W", nil, "World", false)
+		tr.heapOf(st, wc) // resolve through the frame first
+		st.heap[wc.name] = tr.newHeapBase(wc, "world_after_"+lastName(fc.name))
+	}
 	na := tr.freshConst("alloc_call", "Int")
 	tr.assume(Implies(st.reach, app(">=", na, now)), "allocation counter monotone")
 	st.alloc = na
@@ -1170,6 +1294,10 @@ func (a *Act) frameForCall(st *State, fc *FuncContract, vars map[string]specVal,
 func (fc *FuncContract) mods(tr *Tr, mods map[string]bool) bool {
 	if fc.pure {
 		return false
+	}
+	if fc.changesWorld {
+		tr.comp("ghost:W", nil, "World", false)
+		mods["ghost:W"] = true
 	}
 	mode := "default"
 	for _, as := range fc.assigns {
@@ -1280,7 +1408,7 @@ func (tr *Tr) valOKDef() string {
 			continue
 		}
 		tr.boundVars = append(tr.boundVars, "vv_inv")
-		e := &specEnv{tr: tr, pkg: inv.pkg, vars: map[string]specVal{inv.param: {app(c.sel, "vv_inv"), inv.typ}}, errs: &errs, st: tr.rootAct.entryState, old: tr.rootAct.entryState}
+		e := &specEnv{tr: tr, pkg: inv.pkg, vars: map[string]specVal{inv.param: {app(c.sel, "vv_inv"), inv.typ}}, errs: &errs, st: tr.rootAct.entryState, old: tr.rootAct.entryState, inlineSpecs: true}
 		body := e.evalBool(inv.body)
 		tr.boundVars = tr.boundVars[:len(tr.boundVars)-1]
 		conds = append(conds, fmt.Sprintf("(=> ((_ is %s) vv_inv) %s)", c.ctor, body))
